@@ -225,6 +225,34 @@ theorem C14_join_separator_explicit (sw : Sw) (h : sw.joinArgAsList = true) (a b
   simp only [Prod.mk.injEq] at ha hb fa fb
   cases s <;> simp [joinF, sepArg, bracketedArg, sepName, joinSepRule, sepOfName, hpa, hpb, fa, fb, ha.2] <;> decide
 
+theorem appendParts_snd (sw : Sw) (h : sw.appendAsList = true) (l : Value) :
+    (appendParts sw l).2 = (argSep l, argBr l) := by
+  cases l <;> simp [appendParts, argSep, argBr, h]
+
+/-- separator of `append(l, v)`: the list's own, `space` if it has none; brackets are kept; an explicit
+    `$separator` decides -/
+theorem C14_append_separator (sw : Sw) (h : sw.appendAsList = true) (l v : Value) :
+    appendF sw [l, v] = .ok (mkList (elems l ++ [v]) (if argSep l = .undecided then .space else argSep l) (argBr l)) ∧
+    (∀ (s : Sep) (q : Bool), appendF sw [l, v, .str (sepName s) q] = .ok (mkList (elems l ++ [v]) (sepOfName s) (argBr l))) ∧
+    (∀ q, appendF sw [l, v, .str "foo".toList q] = .error .badSeparator) ∧
+    appendF sw [l, v, .null] = .error .notString := by
+  have hf := appendParts_fst sw h l
+  have hs := appendParts_snd sw h l
+  rcases hp : appendParts sw l with ⟨es, sep, br⟩
+  rw [hp] at hf hs
+  simp only [Prod.mk.injEq] at hf hs
+  obtain ⟨hs1, hs2⟩ := hs
+  subst hf hs1 hs2
+  refine ⟨?_, ?_, ?_, ?_⟩
+  · simp [appendF, sepArg, hp]
+  · intro s q
+    cases s <;> simp [appendF, sepArg, hp, sepName, sepOfName] <;> decide
+  · intro q; simp [appendF, sepArg]
+  · simp [appendF, sepArg]
+
+example : Sw.spec.appendAsList = true ∧ Sw.spec.joinArgAsList = true ∧ Sw.spec.rangeByInt = true ∧ Sw.spec.setArity = true :=
+  ⟨rfl, rfl, rfl, rfl⟩
+
 theorem C14_join_bad_separator_err (sw : Sw) (a b : Value) (q : Bool) :
     joinF sw [a, b, .str "foo".toList q] = .error .badSeparator := by
   simp [joinF, sepArg]
@@ -649,6 +677,70 @@ theorem C14_map_missing_err (sw : Sw) (m : Value) :
 theorem C14_map_set_arity_err (sw : Sw) (h : sw.setArity = true) (m v : Value) :
     mapSetF sw [m, v] = .error .missingArg ∧ mapSetF sw [m] = .error .missingArg := by
   simp [mapSetF, h]
+
+/-- `list-separator` / `is-bracketed` read the list's own separator (`space` when it has none) and
+    bracket flag; a map or argument list is an unbracketed comma list, any other value an unbracketed
+    space list -/
+theorem C14_separator_bracketed (es : VList) (sep : Sep) (br : Bool) (ps kw : VPairs) (s : Sep) :
+    separatorF [.list es sep br] = .ok (.str (sepName sep) false) ∧ isBracketedF [.list es sep br] = .ok (.bool br) ∧
+    separatorF [.map ps] = .ok (.str "comma".toList false) ∧ isBracketedF [.map ps] = .ok (.bool false) ∧
+    separatorF [.arglist es kw s] = .ok (.str "comma".toList false) ∧ isBracketedF [.arglist es kw s] = .ok (.bool false) ∧
+    separatorF [.null] = .ok (.str "space".toList false) ∧ isBracketedF [.null] = .ok (.bool false) ∧
+    sepName .undecided = "space".toList :=
+  ⟨rfl, rfl, rfl, rfl, rfl, rfl, rfl, rfl, rfl⟩
+
+theorem length_keys (m : VPairs) : (keys m).toList.length = m.length := by
+  induction m using VPairs.ind with
+  | nil => rfl
+  | cons k v t ih => simp [keys, VList.toList, VPairs.length, ih]
+
+theorem length_values (m : VPairs) : (values m).toList.length = m.length := by
+  induction m using VPairs.ind with
+  | nil => rfl
+  | cons k v t ih => simp [values, VList.toList, VPairs.length, ih]
+
+theorem length_pairsAsList (m : VPairs) : (pairsAsList m).toList.length = m.length := by
+  induction m using VPairs.ind with
+  | nil => rfl
+  | cons k v t ih => simp [pairsAsList, VList.toList, VPairs.length, ih]
+
+/-- `map-keys` / `map-values` are unbracketed comma lists with one element per entry, and `length`
+    of the map itself is the number of entries -/
+theorem C14_keys_values_length (m : VPairs) :
+    mapKeysF [.map m] = .ok (.list (keys m) .comma false) ∧ mapValuesF [.map m] = .ok (.list (values m) .comma false) ∧
+    lengthF [.list (keys m) .comma false] = .ok (natV m.length) ∧
+    lengthF [.list (values m) .comma false] = .ok (natV m.length) ∧
+    lengthF [.map m] = .ok (natV m.length) := by
+  refine ⟨rfl, rfl, ?_, ?_, ?_⟩
+  · simp [lengthF, elems, asList, length_keys]
+  · simp [lengthF, elems, asList, length_values]
+  · simp [lengthF, elems, asList, length_pairsAsList]
+
+/-- `map.deep-remove(m, k)` with a single key removes it (when removal is by `==`) -/
+theorem C14_deep_remove_get (sw : Sw) (h : sw.eq.removeEq = true) (m : VPairs) (k : Value) :
+    ∃ r, deepRemoveF sw [.map m, k] = .ok (.map r) ∧ mapGetF sw [.map r, k] = .ok .null ∧
+      mapHasKeyF sw [.map r, k] = .ok (.bool false) := by
+  have hc := contains_eq_isSome sw.eq m k
+  by_cases hk : contains sw.eq m k = true
+  · refine ⟨Grass.Value.remove sw.eq m k, ?_, ?_, ?_⟩
+    · simp [deepRemoveF, assertMap, tryMap, dropKey, hk]
+    · simp [mapGetF, assertMap, tryMap, getPath, getD, get_remove_self sw.eq h m k]
+    · simp [mapHasKeyF, assertMap, tryMap, get_remove_self sw.eq h m k]
+  · have hn : Grass.Value.get sw.eq m k = none := by
+      rw [hc] at hk
+      cases hg : Grass.Value.get sw.eq m k <;> simp_all
+    refine ⟨m, ?_, ?_, ?_⟩
+    · simp [deepRemoveF, assertMap, tryMap, dropKey, hk]
+    · simp [mapGetF, assertMap, tryMap, getPath, getD, hn]
+    · simp [mapHasKeyF, assertMap, tryMap, hn]
+
+/-! ## what is NOT proved here
+  No theorem is stated for `index` (it is `indexOf` of Grass/Value.lean, C09's subject), for
+  `string.split`, for the nested-key forms of `map-merge`, `map-has-key`, `map.deep-remove` with a key
+  path, nor for the order of the key list of `map-merge` (`C14_keys_merge` is about membership).
+  Those are tied to the documentation only through the correspondence run of tools/props/c14.py
+  (model = the code, function by function) and, for `index`, through C09.
+-/
 
 /-! ## as-found witnesses (`Sw.now`): the code deviates from the documentation -/
 
